@@ -61,6 +61,22 @@ Two further alphabets are crossed with the structures (same oracle clauses, noth
     reference model reads "available" as "condition non zero".  The same valued conditions are also written without data
     columns (Python numbers, Numeric objects, numbers and columns, products of expressions).  Clause (b) is NOT evaluated on
     these tables: the cross-nested functions use the condition as a weight (see ASSUMPTIONS).
+  * HISTORIES ON LIVE ARGUMENT OBJECTS (parts live*): the model functions receive the caller's own objects - the dict of
+    utilities, the dict of availability conditions, the nests (objects or legacy tuples), the scale - and a script keeps them:
+    it requests models, updates an entry of a dict IN PLACE (scenario analysis: V[j] = V[j] + ..., av[j] = 0) and requests the
+    models again with the same objects.  The statement quantifies over all utilities and availabilities: every clause must hold
+    for the content the dicts have WHEN the function is called, whatever was requested before.  One history = one set of
+    argument objects (LiveArgs); earlier calls (a primer: every public name of the family alone, in both nest syntaxes, and the
+    logit functions - or all of them in turn followed by the per-alternative simulation loops); one or two in-place updates
+    (live_updates: nothing / V[j] replaced / av[j] := 1 / av[j] := 0 / every V / V[j] popped and inserted again / V[j] and
+    av[j], for every alternative j); then every model of clauses (a)-(d) is requested with the SAME objects and compared with
+    the simpler model of its pair, built from the same objects and built from new objects that hold the same content
+    (tuples == objects: both from the live objects).  Clause (e) the same way: earlier calls of the generating function / of
+    the terms / of the model, update, then G and the terms requested with the same objects, differentiated and compared with
+    the closed form of the utilities and availabilities in force.  Rows on which an update leaves no alternative available
+    are counted and left out.  Engine evaluations are memoised by the printed formula (FormulaEval): histories that end in the
+    same content must give the same formula on a library whose functions depend on the content of their arguments only; a
+    formula that prints differently is evaluated for real and has to satisfy the clause.
 """
 from __future__ import annotations
 
@@ -80,7 +96,9 @@ TECHNIQUE = ('bounded exhaustive enumeration of nest structures x parameter grid
              'every public entry point of the family (old names included) x parameters evaluated at / away from their initial '
              'values x the availability conditions written as data columns / None / Python numbers / Numeric objects / numbers '
              'and columns / expressions x utilities of unavailable alternatives carrying extreme not-applicable codes x availability '
-             'conditions of available alternatives holding non-zero values other than one (counts, shares, a negative number); paired evaluation of the model functions by the real engine (reductions, scale one, tuple syntax) and real '
+             'conditions of available alternatives holding non-zero values other than one (counts, shares, a negative number) x '
+             'histories on live argument objects (earlier calls with the same dict of utilities / dict of availability conditions / '
+             'nests, an entry of a dict replaced in place, the models requested again); paired evaluation of the model functions by the real engine (reductions, scale one, tuple syntax) and real '
              'differentiation of the published generating function by the engine gradient, against closed forms')
 RULE = ('one case = one (oracle clause, pair of model functions, nest structure, parameter assignment, availability pattern); '
         'every utility vector x chosen alternative under it is one compared value vector (counted in evaluations). '
@@ -94,6 +112,12 @@ RULE = ('one case = one (oracle clause, pair of model functions, nest structure,
         'single unavailable alternative / all of them x two codes of opposite sign x utility vectors of the others are the '
         'value vectors of one case) or the availability conditions of available alternatives hold values other than one '
         '(AV_VALUES: the valued pattern - which alternative holds which value - is the availability pattern of the case). '
+        'Histories on live argument objects (parts live*): the case also names the history - the earlier call(s) made with the '
+        'same argument objects (primer: one public name of the family x nest syntax, a logit function, or all of them) and the '
+        'in-place update(s) of the dict of utilities / of availability conditions made before the models of the pair were '
+        'requested; the availability pattern of the case is the one in force after the update (non-trivial: two alternatives '
+        'available after the update); the second model of a pair is built from the same objects or from new objects of equal '
+        'content (named in the pair). '
         'distinct = distinct such keys.')
 ASSUMPTIONS = [
     'grids of the per-seed alphabets of C05 (utilities, nest parameters, scale, alpha splits); J <= 3 quick, J <= 4 thorough; '
@@ -155,6 +179,32 @@ ASSUMPTIONS = [
     'of numbers and columns, expressions; one table per valued pattern, form rotating): clause (e) for J = 2 every pattern, '
     'J = 3 every third pattern (thorough: every one), J = 4 (thorough) every eighth one; thorough also (a), (c), (d) for J = 2 '
     'and every fourth pattern of J = 3',
+    'histories on live argument objects (bound: ONE earlier primer, at most TWO in-place updates, then every model of the clauses; '
+    'the updated objects are the caller\'s dicts of utilities and of availability conditions - nest objects and parameter objects '
+    'are not modified after construction; utilities and availability conditions are data columns, a replaced utility is the old '
+    'one plus a constant of LIVE_SHIFTS (per seed), a replaced availability condition the number 1 or 0).  Primers: each of the '
+    '22 public names x {nest objects, legacy tuples} alone (scaled functions with scale one and with the other scale, term-level '
+    'functions through mev and logmev), logit, loglogit (46; 22 for a genuinely cross-nested context), and \'all\' = every one of '
+    'them in turn followed by the per-alternative loops with a constant choice.  Updates (live_updates): none, V[j], av[j] := 1, '
+    'av[j] := 0 for every j, every V; J = 2 and thorough also V[j] popped and inserted again (dict order changes) and V[j] with '
+    'av[j] (12 updates for J = 2, 17 for J = 3; 11 for J = 3 quick).  Nested structures with a nest, whole memberships for the '
+    'cross-nested side (live_plan): quick - J = 2 every structure: all-ones assignment with the primer all x every update, '
+    'probabilities and log probabilities, every public entry point requested after the update; the assignment without ones the '
+    'same plus the scaled versions, chains of two updates (every second update followed by the next one, the clauses also checked '
+    'in between) and every single primer x every update (log versions of the unscaled and scale-one models after the update); one '
+    'of the two assignments also with availability None; J = 3 every structure, one assignment (alternating), log versions, '
+    'primer all x every update, single primers for every fifth structure (rotating with the seed) and the single nest holding '
+    'everything.  thorough - J = 2 everything for both assignments, every ordered pair of updates for the assignment without '
+    'ones; J = 3 both assignments, chains next, single primers; J = 4 one assignment, primer all, single primers every fourth '
+    'structure.  Genuinely cross-nested contexts (2 nests; clauses (c), (d)): quick - J = 2 every third structure with a cross '
+    'membership (rotating with the seed), log versions, single primers for every second of them; thorough - every structure '
+    'J = 2 (everything, chains) and J = 3 with one alpha split.  Clause (e) (part live_gen; primers all / generating function / '
+    'terms / model x one update, names of GEN_ENTRIES, nest syntax and parameter forms rotating): J = 2 every structure x two '
+    'assignments x every primer x every update; J = 3 one assignment (thorough: two), primer all x every update, single primers '
+    'every fourth update (thorough: every second); J = 4 thorough likewise',
+    'engine evaluations of the live parts are memoised per context by the printed formula (str of the expression, which writes '
+    'out every utility, availability condition, parameter and number of the tree): expressions that print identically are one '
+    'formula and are evaluated once; the engine is trusted to be a function of the formula',
 ]
 ANCHOR_FILES = ['src/biogeme/models/nested.py', 'src/biogeme/models/cnl.py', 'src/biogeme/models/mev.py',
                 'src/biogeme/models/logit.py', 'src/biogeme/nests.py']
@@ -185,8 +235,12 @@ def differs(a, b, rel=REL, ab=ABS):
     return ~same
 
 
-def compare(rec, clause, name_a, name_b, spec_a, spec_b, table, va, vb, info, rel=REL, collect_case=None):
-    """engine-vs-engine comparison of two evaluated model functions on the same table."""
+def compare(rec, clause, name_a, name_b, spec_a, spec_b, table, va, vb, info, rel=REL, collect_case=None, eff_pats=None,
+            live_case=None):
+    """engine-vs-engine comparison of two evaluated model functions on the same table.
+    eff_pats (part 'live'): the availability patterns in force after the in-place updates of the dict of availability conditions
+    (one per pattern of the table); rows on which no alternative is available any more are counted and left out.
+    live_case: the replay descriptor of a history on live argument objects (replaces the pair of specifications)."""
     import numpy as np
     if va is None or vb is None:
         return      # the evaluation raised: already reported by the Evaluator
@@ -195,10 +249,17 @@ def compare(rec, clause, name_a, name_b, spec_a, spec_b, table, va, vb, info, re
     per_pat = {}
     for g, (ui, pi, s) in enumerate(table.groups):
         per_pat.setdefault(pi, []).append(g)
+    pats = table.pats if eff_pats is None else eff_pats
+    if eff_pats is not None:
+        for pi, gs in list(per_pat.items()):
+            if n_avail(pats[pi]) == 0:
+                rows_bad[gs] = False
+                rec.count('rows_left_out_no_alternative_available_after_the_update', len(gs))
+                del per_pat[pi]
     h = hashlib.sha1(va.tobytes() + vb.tobytes()).hexdigest()[:16]
     rec.observe((clause, name_a, name_b, h))
     for pi, gs in per_pat.items():
-        pat = table.pats[pi]
+        pat = pats[pi]
         nt = n_avail(pat) >= 2
         key = json.dumps([clause, name_a, name_b, info, pat], sort_keys=True, default=list) if nt else None
         ok = not any(rows_bad[g] for g in gs)
@@ -216,7 +277,11 @@ def compare(rec, clause, name_a, name_b, spec_a, spec_b, table, va, vb, info, re
             key += '|availabilities-as-' + AVFORM_TAG[info['availability']]
         if info.get('utilities') or info.get('availability_values'):
             key += '|' + (info.get('utilities') or info['availability_values'])
+        if info.get('history'):
+            key += '|' + info['history']
         case = dict(part='pair', clause=clause, a=spec_a, b=spec_b, names=[name_a, name_b], group=grp, info=info)
+        if live_case is not None:
+            case = dict(live_case, clause=clause, names=[name_a, name_b], group=grp)
         rec.violation(key, f'{clause}: {name_a} = {va[g].tolist()} but {name_b} = {vb[g].tolist()} at u={grp["u"]} '
                            f'avail={grp["avail"]} (alts {table.alts}, {info})', case,
                       expected=vb[g].tolist(), observed=va[g].tolist())
@@ -730,6 +795,348 @@ def check_entry_points(alph, alts, alone, nests, mus, table, rec, avf='var', si=
                                             (v[0] == 'nested' or (nests and not nested_only))))
 
 
+# --------------------------------------------------------------------------- histories on live argument objects
+# The model functions receive the CALLER'S objects: the dict of utilities, the dict of availability conditions, the nests.
+# A scenario analysis keeps these objects and updates them in place between two requests (V[j] = V[j] + ..., av[j] = 0, ...).
+# The statement quantifies over all utilities and availabilities: every clause must hold for the content the dicts have WHEN
+# the model function is called, whatever was requested earlier with the same objects.  One history = one set of argument
+# objects (LiveArgs); [earlier calls: a primer] -> [in-place update(s)] -> [every model of the clauses, requested with the same
+# objects and compared with the simpler model of the pair - built from the same objects and built from new objects of equal
+# content].
+LIVE_SHIFTS = [[0.625, -0.875, 1.375, -0.4375], [-0.75, 1.125, -1.5, 0.5625], [1.25, -0.375, 0.875, -1.125],
+               [-1.375, 0.6875, 1.0625, -0.5], [0.8125, -1.25, 0.4375, 1.5]]
+LIVE_TAG = 'argument-dicts-updated-in-place-between-calls'
+LIVE_TAG_NONE = 'calls-repeated-with-the-same-argument-objects'
+GEN_PRIMERS = ['all', 'gen', 'terms', 'model']       # earlier calls of the derivative clause (e)
+
+
+def live_shifts(seed):
+    return LIVE_SHIFTS[int(seed) % len(LIVE_SHIFTS)]
+
+
+def live_updates(J, av_given, every=True):
+    """the in-place updates of the argument dicts between two calls:
+      ['none']     nothing is changed (the second request repeats the first one)
+      ['V', k]     V[a_k] = V[a_k] + c_k            (the utility of one alternative is replaced)
+      ['av1', k]   av[a_k] = 1                      (the alternative is made available in the scenario)
+      ['av0', k]   av[a_k] = 0                      (the alternative is removed in the scenario)
+      ['Vall']     every entry of V is replaced
+      ['Vpop', k]  x = V.pop(a_k); V[a_k] = x + c_k (replaced through removal and insertion: the order of the dict changes)
+      ['Vav', k]   V[a_k] and av[a_k] are both replaced
+    every = False: without the last two families."""
+    out = [['none']] + [['V', k] for k in range(J)]
+    if av_given:
+        out += [[op, k] for k in range(J) for op in ('av1', 'av0')]
+    out.append(['Vall'])
+    if every:
+        out += [['Vpop', k] for k in range(J)]
+        if av_given:
+            out += [['Vav', k] for k in range(J)]
+    return out
+
+
+def live_apply(V, av, alts, u, shifts):
+    """ONE in-place update of the caller's dicts (the dict objects stay the same, their content changes)."""
+    from biogeme.expressions import Numeric
+    op = u[0]
+    if op == 'none':
+        return
+    if op == 'Vall':
+        for k, a in enumerate(alts):
+            V[a] = V[a] + Numeric(shifts[k % len(shifts)])
+        return
+    k = u[1]
+    a = alts[k]
+    c = Numeric(shifts[k % len(shifts)])
+    if op == 'V':
+        V[a] = V[a] + c
+    elif op == 'Vpop':
+        x = V.pop(a)
+        V[a] = x + c
+    elif op == 'av1':
+        av[a] = 1
+    elif op == 'av0':
+        av[a] = 0
+    elif op == 'Vav':
+        V[a] = V[a] + c
+        av[a] = 1
+    else:
+        raise ValueError(op)
+
+
+def live_eff(pat, updates):
+    """availability pattern in force after the updates (the data columns hold `pat`)."""
+    p = list(pat)
+    for u in updates:
+        if u[0] in ('av1', 'Vav'):
+            p[u[1]] = 1
+        elif u[0] == 'av0':
+            p[u[1]] = 0
+    return p
+
+
+def live_vshift(J, updates, shifts):
+    """what the updates add to the utility of every alternative (reference side of clause (e))."""
+    out = [0.0] * J
+    for u in updates:
+        if u[0] == 'Vall':
+            for k in range(J):
+                out[k] += shifts[k % len(shifts)]
+        elif u[0] in ('V', 'Vpop', 'Vav'):
+            out[u[1]] += shifts[u[1] % len(shifts)]
+    return out
+
+
+def live_tag(updates):
+    """label of a history in the finding keys (which dict was updated is written in the description and in the case)"""
+    return LIVE_TAG if any(u[0] != 'none' for u in updates) else LIVE_TAG_NONE
+
+
+def live_ctx(alph, kind, alts, alone, nests, mus, k, seed, av='var', logs=(False, True), scaled=True, entries=False):
+    """JSON-able description of one live context: structure, parameters, the forms of the parameter objects (rotating with
+    k), which models are requested after the update (log versions only / also the probabilities; scaled versions; every
+    public entry point)."""
+    return dict(kind=kind, alts=list(alts), alone=list(alone), nests=[(dict(n) if kind == 'cnl' else list(n)) for n in nests],
+                mus=list(mus), scale=alph['scale'][1], shifts=live_shifts(seed),
+                forms=dict(av=av, p=B.PFORMS[k % 4], alpha=B.ALPHAFORMS[k % 3], mu=B.MUFORMS[k % 3]),
+                logs=list(logs), scaled=bool(scaled), entries=bool(entries))
+
+
+class LiveArgs:
+    """ONE set of argument objects, as a script holds them: the dict of utilities, the dict of availability conditions
+    (or None), the nests as objects and as legacy tuples (for a nested structure also the cross-nested nests with whole
+    memberships), the scale parameters."""
+
+    def __init__(self, ctx):
+        from biogeme.expressions import Variable
+        alts = ctx['alts']
+        f = ctx['forms']
+        self.ctx, self.alts = ctx, alts
+        self.V = B.build_util(alts, 'var', None)
+        self.av = B.build_av(alts, f['av'], None)
+        self.choice = Variable('CH')
+        base = dict(B.default_forms(), p=f['p'], alpha=f['alpha'])
+        self.nn = self.cn = None
+        if ctx['kind'] == 'nested':
+            whole = [{a: 1.0 for a in n} for n in ctx['nests']]
+            self.nn = {sx: build_nests6('nested', alts, ctx['nests'], ctx['mus'], dict(base, syntax=sx), {})
+                       for sx in ('obj', 'tuple')}
+            self.cn = {sx: build_nests6('cnl', alts, whole, ctx['mus'], dict(base, syntax=sx), {}) for sx in ('obj', 'tuple')}
+        else:
+            self.cn = {sx: build_nests6('cnl', alts, ctx['nests'], ctx['mus'], dict(base, syntax=sx), {})
+                       for sx in ('obj', 'tuple')}
+        self.mu = {'1': B._param(f['mu'], 'mu_scale', 1.0), 's': B._param(f['mu'], 'mu_scale', ctx['scale'])}
+
+    def update(self, u):
+        live_apply(self.V, self.av, self.alts, u, self.ctx['shifts'])
+
+    def call(self, model, syntax='obj', mu=None, via=None, choice=None):
+        """the expression returned by the public name `model` for the CURRENT content of the argument objects."""
+        from biogeme import models
+        ch = self.choice if choice is None else choice
+        if model in ('logit', 'loglogit'):
+            return getattr(models, model)(self.V, self.av, ch)
+        fam, role, scaled = ENTRIES[model]
+        nests = (self.nn if fam == 'nested' else self.cn)[syntax]
+        if role == 'generating':
+            with warnings.catch_warnings():
+                warnings.simplefilter('ignore', DeprecationWarning)
+                return getattr(models, model)(self.V, self.av, nests)
+        return call_entry(model, via, self.V, self.av, nests, ch, None if mu is None else self.mu[mu])
+
+
+def live_primers(kind):
+    """the earlier calls: every public name of the family (both nest syntaxes) and the logit functions, each alone."""
+    out = [['logit'], ['loglogit']]
+    for name, (fam, role, scaled) in ENTRIES.items():
+        if kind == 'cnl' and fam != 'cnl':
+            continue
+        out += [[name, sx] for sx in ('obj', 'tuple')]
+    return out
+
+
+def live_prime(A, primer):
+    """makes the earlier calls of a primer with the live objects (the expressions are requested, as a script does to
+    simulate or to estimate a first scenario; what is checked is requested after the update).  A scaled function is
+    called with the scale one and with the other scale; a term-level function is turned into a model through mev and
+    logmev; ['all']: every primer in turn, then the simulation loop (the probability of every alternative, constant
+    choice) of the main model functions."""
+    kind = A.ctx['kind']
+    if primer[0] == 'all':
+        for p in live_primers(kind):
+            live_prime(A, p)
+        for a in A.alts:
+            for model in (['nested', 'lognested'] if kind == 'nested' else []) + ['cnl', 'logcnl']:
+                A.call(model, 'obj', choice=a)
+            for model in (['nested_mev_mu'] if kind == 'nested' else []) + ['cnlmu']:
+                A.call(model, 'obj', mu='s', choice=a)
+        return
+    if primer[0] in ('logit', 'loglogit'):
+        A.call(primer[0])
+        return
+    name, sx = primer
+    fam, role, scaled = ENTRIES[name]
+    for mu in (['1', 's'] if scaled else [None]):
+        if role == 'terms':
+            A.call(name, sx, mu, via='mev')
+            A.call(name, sx, mu, via='logmev')
+        else:
+            A.call(name, sx, mu)
+
+
+class FormulaEval:
+    """Engine evaluations of one live context on one table, memoised by the PRINTED formula (str of the expression: it writes
+    out every utility, availability condition, parameter and number of the expression tree): two expressions that print
+    identically are the same formula and are evaluated once.  On a library whose model functions depend on the content of
+    their arguments only, the expressions of all the histories that end in the same content print identically."""
+
+    def __init__(self, table):
+        self.table, self.J, self.memo, self.fresh = table, len(table.alts), {}, {}
+
+    def __call__(self, expr, rec, label, lcase):
+        import numpy as np
+        k = str(expr)
+        if k in self.memo:
+            rec.count('live_formulas_printing_like_one_already_evaluated')
+            return self.memo[k]
+        try:
+            vals = expr.get_value_c(database=self.table.database(), prepare_ids=True)
+            vals = np.asarray(vals, dtype=float).reshape(-1, self.J)
+        except Exception as e:  # a valid specification must evaluate
+            if isinstance(e, RuntimeError):
+                rec.retire = True
+            vals = None
+            rec.violation(f'{ID}|model-raises-{type(e).__name__}|{label}|{lcase["ctx"]["kind"]}|{live_tag(lcase["updates"])}',
+                          f'{label} raised {type(e).__name__}: {str(e)[:300]} when evaluated after the history {lcase}',
+                          dict(lcase, group=self.table.describe_group(0)), observed=repr(e)[:300])
+        rec.count('engine_calls')
+        self.memo[k] = vals
+        return vals
+
+
+def live_check(ctx, A, primer, updates, fe, rec, chain=False):
+    """every model of the clauses (a)-(d), requested with the live objects `A` in their current state."""
+    table = fe.table
+    alts, alone, nests, mus = ctx['alts'], ctx['alone'], ctx['nests'], ctx['mus']
+    kind = ctx['kind']
+    eff = [live_eff(p, updates) for p in table.pats]
+    if kind == 'nested':
+        sh = shape(alone, nests)
+    else:
+        cross = any(0.0 < a < 1.0 for n in nests for a in n.values())
+        sh = 'alone=' + ('yes' if alone else 'no') + ',cross=' + ('yes' if cross else 'no')
+    info = dict(shape=sh, alone=list(alone), nests=nests, mus=list(mus), history=live_tag(updates), primer=primer,
+                updates=updates, forms=ctx['forms'])
+    lcase = dict(part='live', ctx=ctx, primer=primer, updates=updates, chain=chain)
+    state = json.dumps(updates)
+    unit = all(m == 1.0 for m in mus)
+    s = ctx['scale']
+
+    def L(model, sx='obj', mu=None, via=None):
+        label = (f'{via}({model})' if via else model) + f'[{sx}]'
+        try:
+            expr = A.call(model, sx, mu, via)
+        except Exception as e:  # every call of a history is a valid call
+            rec.violation(f'{ID}|model-raises-{type(e).__name__}|{label}|{kind}|{live_tag(updates)}',
+                          f'{label} raised {type(e).__name__}: {str(e)[:300]} when called after the history {lcase}',
+                          dict(lcase, group=table.describe_group(0)), observed=repr(e)[:300])
+            return None
+        return fe(expr, rec, label, lcase)
+
+    def F(model, mu=None):
+        """the simpler model of a pair, built from NEW argument objects that hold the same content."""
+        k = (state, model, mu)
+        if k not in fe.fresh:
+            N = LiveArgs(ctx)
+            for u in updates:
+                N.update(u)
+            fe.fresh[k] = fe(N.call(model, 'obj', mu), rec, model + '[new-objects]', lcase)
+        return fe.fresh[k]
+
+    def cmp(clause, na, nb, va, vb, extra=None, rel=REL):
+        compare(rec, clause, na, nb, None, None, table, va, vb, dict(info, **(extra or {})), rel=rel, eff_pats=eff,
+                live_case=lcase)
+
+    A_, B_, C_, D_ = ('nested-with-unit-parameters-differs-from-logit', 'cnl-with-whole-memberships-differs-from-nested',
+                      'scale-one-differs-from-unscaled', 'tuple-syntax-differs-from-nest-objects')
+    same = '[same-argument-objects]'
+    xs = dict(mu=s)
+    for log in ctx['logs']:
+        pre = 'log' if log else ''
+        C = L(pre + 'cnl')
+        C1 = L(pre + 'cnlmu', mu='1')
+        Ct = L(pre + 'cnl', 'tuple')
+        if kind == 'nested':
+            N = L(pre + 'nested')
+            Nf = F(pre + 'nested')
+            if unit:
+                cmp(A_, pre + 'nested', pre + 'logit', N, F(pre + 'logit'))
+            cmp(B_, pre + 'cnl', pre + 'nested', C, Nf)
+            cmp(B_, pre + 'cnl', pre + 'nested' + same, C, N)
+            N1 = L(pre + 'nested_mev_mu', mu='1')
+            cmp(C_, pre + 'nested_mev_mu(mu=1)', pre + 'nested', N1, Nf)
+            cmp(C_, pre + 'nested_mev_mu(mu=1)', pre + 'nested' + same, N1, N)
+            cmp(B_, pre + 'cnlmu(mu=1)', pre + 'nested', C1, Nf)
+            cmp(D_, pre + 'nested[tuple]', pre + 'nested[objects]', L(pre + 'nested', 'tuple'), N, rel=1e-13)
+        else:
+            cmp(C_, pre + 'cnlmu(mu=1)', pre + 'cnl', C1, F(pre + 'cnl'))
+        cmp(C_, pre + 'cnlmu(mu=1)', pre + 'cnl' + same, C1, C)
+        cmp(D_, pre + 'cnl[tuple]', pre + 'cnl[objects]', Ct, C, rel=1e-13)
+        if ctx['scaled']:
+            Cm = L(pre + 'cnlmu', mu='s')
+            cmp(D_, pre + 'cnlmu[tuple]', pre + 'cnlmu[objects]', L(pre + 'cnlmu', 'tuple', 's'), Cm, xs, rel=1e-13)
+            if kind == 'nested':
+                Nm = L(pre + 'nested_mev_mu', mu='s')
+                cmp(B_, pre + 'cnlmu', pre + 'nested_mev_mu', Cm, F(pre + 'nested_mev_mu', 's'), xs)
+                cmp(B_, pre + 'cnlmu', pre + 'nested_mev_mu' + same, Cm, Nm, xs)
+                cmp(D_, pre + 'nested_mev_mu[tuple]', pre + 'nested_mev_mu[objects]', L(pre + 'nested_mev_mu', 'tuple', 's'), Nm, xs,
+                    rel=1e-13)
+    if ctx['entries']:
+        # every public name of the family, requested with the live objects (the clauses of check_entry_points)
+        for fam in (('nested', 'cnl') if kind == 'nested' else ('cnl',)):
+            for e in family_entries(fam):
+                if e['log'] not in ctx['logs']:
+                    continue
+                pre = 'log' if e['log'] else ''
+                for mu in (['1', 's'] if e['scaled'] else [None]):
+                    name = e['label'] + ('(mu=1)' if mu == '1' else '')
+                    xi = xs if mu == 's' else None
+                    Eo = L(e['entry'], 'obj', mu, e['via'])
+                    cmp(D_, name + '[tuple]', name + '[objects]', L(e['entry'], 'tuple', mu, e['via']), Eo, xi, rel=1e-13)
+                    if mu != 's':
+                        if unit and fam == 'nested':
+                            cmp(A_, name, pre + 'logit', Eo, F(pre + 'logit'))
+                        if fam == 'cnl' and kind == 'nested':
+                            cmp(B_, name, pre + 'nested', Eo, F(pre + 'nested'))
+                        if mu == '1':
+                            cmp(C_, name, pre + fam, Eo, F(pre + fam))
+                    elif fam == 'cnl' and kind == 'nested':
+                        cmp(B_, name, pre + 'nested_mev_mu', Eo, F(pre + 'nested_mev_mu', 's'), xi)
+    rec.count('live_checks')
+
+
+def run_live_history(ctx, primer, updates, fe, rec, chain=False):
+    """ONE history: new argument objects; the earlier calls of the primer; the in-place updates; the clauses.  chain: the
+    clauses are also requested (and checked) after every intermediate update - these requests are the earlier calls of the
+    next update."""
+    lcase = dict(part='live', ctx=ctx, primer=primer, updates=updates, chain=chain)
+    try:
+        A = LiveArgs(ctx)
+        live_prime(A, primer)
+    except Exception as e:  # every call of a history is a valid call
+        rec.violation(f'{ID}|model-raises-{type(e).__name__}|earlier-call|{ctx["kind"]}',
+                      f'the earlier calls {primer} raised {type(e).__name__}: {str(e)[:300]} ({ctx})',
+                      dict(lcase, group=fe.table.describe_group(0)), observed=repr(e)[:300])
+        rec.case(None, ('live-raised', type(e).__name__), outcome=('live', 'raised'))
+        return
+    for i, u in enumerate(updates):
+        A.update(u)
+        if chain and i + 1 < len(updates):
+            live_check(ctx, A, primer, updates[:i + 1], fe, rec, chain)
+    live_check(ctx, A, primer, updates, fe, rec, chain)
+    rec.count('live_histories')
+
+
 # --------------------------------------------------------------------------- (d) terms and (e) generating function
 OFFSETS = [0.125, -0.25, 0.375, -0.0625]
 
@@ -745,10 +1152,14 @@ GEN_ENTRIES = [
 ]
 
 
-def eval_generating(alts, alone, nests, mus, table, syntax, avform, uform='betavar', pform='float', entries=None, init='zero'):
+def eval_generating(alts, alone, nests, mus, table, syntax, avform, uform='betavar', pform='float', entries=None, init='zero',
+                    live=None):
     """Real library + engine.  Returns (G (groups,), dG/dV (groups, J) in alts order,
     terms ln G_i from get_mev_for_nested (groups, J), term values with the other nest syntax).
-    entries = (name of the generating function, name of the terms function, form of the scale mu = 1 or None)."""
+    entries = (name of the generating function, name of the terms function, form of the scale mu = 1 or None).
+    live = dict(primer=, updates=, shifts=): a history on ONE set of argument objects (dict of utilities, dict of availability
+    conditions, nests): the earlier calls of the primer are made, the dicts are updated in place, and only then the generating
+    function and the terms are requested - with the same objects."""
     import numpy as np
     from biogeme import models
     from biogeme.expressions import Variable, Expression, Numeric
@@ -771,19 +1182,39 @@ def eval_generating(alts, alone, nests, mus, table, syntax, avform, uform='betav
         raise ValueError('eval_generating: availabilities written as numbers need a table with one availability pattern')
     av = build_av6(alts, avform, table.pats[0])
     nst = the_nests()
+    mu_obj = None if terms_mu is None else param6(terms_mu, 'mu_scale', 1.0, 'mu', init, moved)
+
+    def the_terms(nn):
+        if terms_mu is None:
+            return getattr(models, terms_name)(V, av, nn)
+        return getattr(models, terms_name)(V, av, nn, mu_obj)
+
+    if live is not None:
+        with warnings.catch_warnings():
+            warnings.simplefilter('ignore', DeprecationWarning)
+            for what in (GEN_PRIMERS[1:] if live['primer'] == 'all' else [live['primer']]):
+                if what == 'gen':
+                    getattr(models, gen_name)(V, av, nst)
+                elif what == 'terms':
+                    the_terms(nst)
+                elif what == 'model':
+                    models.lognested(V, av, nst, Variable('CH'))
+                    for a in alts:
+                        models.nested(V, av, nst, a)
+                else:
+                    raise ValueError(what)
+        for u in live['updates']:
+            live_apply(V, av, alts, u, live['shifts'])
     with warnings.catch_warnings():
         warnings.simplefilter('ignore', DeprecationWarning)
         G = getattr(models, gen_name)(V, av, nst)
     betas = None
     if uform == 'beta':
         betas = {f'bv_{a}': table.us[0][k] for k, a in enumerate(alts)}
-    nst2 = the_nests()
+    nst2 = nst if live is not None else the_nests()
     with warnings.catch_warnings():
         warnings.simplefilter('ignore', DeprecationWarning)
-        if terms_mu is None:
-            terms = getattr(models, terms_name)(V, av, nst2)
-        else:
-            terms = getattr(models, terms_name)(V, av, nst2, param6(terms_mu, 'mu_scale', 1.0, 'mu', init, moved))
+        terms = the_terms(nst2)
     if moved:
         betas = dict(betas or {}, **moved)
     out = G.get_value_and_derivatives(betas=betas, database=db, gradient=True, hessian=False, bhhh=False, aggregation=False,
@@ -805,8 +1236,10 @@ def eval_generating(alts, alone, nests, mus, table, syntax, avform, uform='betav
 
 
 def check_generating(alph, alts, alone, nests, mus, table, rec, syntax='obj', avform='var', uform='betavar', pform='float',
-                     entries=None, init='zero', utag=None):
-    """entries: one of GEN_ENTRIES (None = the snake_case functions); the names appear in the finding keys."""
+                     entries=None, init='zero', utag=None, live=None):
+    """entries: one of GEN_ENTRIES (None = the snake_case functions); the names appear in the finding keys.
+    live: a history on one set of argument objects (see eval_generating); the reference reads the utilities and the
+    availability pattern in force after the in-place updates."""
     import numpy as np
     J = len(alts)
     gen_name, terms_name, terms_mu = entries or GEN_ENTRIES[0]
@@ -816,8 +1249,13 @@ def check_generating(alph, alts, alone, nests, mus, table, rec, syntax='obj', av
     if utag:
         xcase = dict(xcase, utilities=utag)
         utail = '|' + utag
+    vshift = [0.0] * J
+    if live is not None:
+        xcase = dict(xcase, live=live)
+        utail += '|' + live_tag(live['updates'])
+        vshift = live_vshift(J, live['updates'], live['shifts'])
     try:
-        Gv, grad, T = eval_generating(alts, alone, nests, mus, table, syntax, avform, uform, pform, entries, init)
+        Gv, grad, T = eval_generating(alts, alone, nests, mus, table, syntax, avform, uform, pform, entries, init, live)
     except Exception as e:
         if isinstance(e, RuntimeError):
             rec.retire = True
@@ -837,14 +1275,20 @@ def check_generating(alph, alts, alone, nests, mus, table, rec, syntax='obj', av
     if entries is not None:
         info = dict(info, entries=list(entries), init=init)
     info = tag_info(info, utag)
+    if live is not None:
+        info = dict(info, history=live_tag(live['updates']), primer=live['primer'], updates=live['updates'])
     ref_nests = list(zip(mus, nests))
     interesting = bool(alone) or any(m != 1.0 for m in mus)
     done = set()
     per_pat_ok = {}
+    eff_pats = list(table.pats) if live is None else [live_eff(p, live['updates']) for p in table.pats]
     for g, (ui, pi, s) in enumerate(table.groups):
-        pat = table.pats[pi] if avform != 'none' else [1] * J
+        pat = eff_pats[pi] if avform != 'none' else [1] * J
+        if live is not None and n_avail(pat) == 0:
+            rec.count('rows_left_out_no_alternative_available_after_the_update')
+            continue
         if uform == 'betavar':
-            V = {a: OFFSETS[k] + table.us[ui][k] + s for k, a in enumerate(alts)}
+            V = {a: OFFSETS[k] + table.us[ui][k] + s + vshift[k] for k, a in enumerate(alts)}
         else:
             V = {a: table.us[0][k] for k, a in enumerate(alts)}
         avd = dict(zip(alts, pat))
@@ -897,7 +1341,7 @@ def check_generating(alph, alts, alone, nests, mus, table, rec, syntax='obj', av
                             published_terms=[float(x) for x in T[g]],
                             reference_ln_Gi={str(a): math.log(v) for a, v in Giref.items()}))
     for pi, oks in per_pat_ok.items():
-        pat = table.pats[pi]
+        pat = eff_pats[pi]
         nt = interesting and n_avail(pat) >= 1
         key = json.dumps(['gen', info, pat], sort_keys=True, default=list) if nt else None
         rec.case(key, None, outcome=('gen', info['shape'], n_avail(pat), all(oks)))
@@ -1031,7 +1475,97 @@ def tasks(tier, seed):
             t.append(dict(part='avval_entry', J=J, structs=ch, seed=seed, tier=tier))
         for ch in B._chunks(range(n), ({2: 5, 3: 3} if quick else {2: 2, 3: 1, 4: 2})[J]):
             t.append(dict(part='avval_forms', J=J, structs=ch, seed=seed, tier=tier))
+    # histories on live argument objects: earlier calls -> the dicts of utilities / availability conditions updated in place ->
+    # every clause requested with the same objects
+    for J in range(2, Jmax + 1):
+        structs = R.nested_structures(alph['labels'][:J])
+        with_nests = [i for i, st in enumerate(structs) if st[1]]
+        for ch in B._chunks(with_nests, ({2: 1, 3: 2} if quick else {2: 1, 3: 1, 4: 2})[J]):
+            t.append(dict(part='live', J=J, structs=ch, seed=seed, tier=tier))
+        for ch in B._chunks(range(len(structs)), ({2: 2, 3: 4} if quick else {2: 1, 3: 2, 4: 4})[J]):
+            t.append(dict(part='live_gen', J=J, structs=ch, seed=seed, tier=tier))
+    for J, M, ns, per in live_cnl_config(tier):
+        n = len(R.cnl_structures(alph['labels'][:J], M, alph['splits'][:ns]))
+        for ch in B._chunks(range(n), per):
+            t.append(dict(part='live_cnl', J=J, M=M, ns=ns, structs=ch, seed=seed, tier=tier))
     return t
+
+
+def live_cnl_config(tier):
+    """(J, number of nests, number of alpha splits, structures per task) of the part 'live_cnl'"""
+    if tier == 'quick':
+        return [(2, 2, 3, 12)]
+    return [(2, 2, 3, 4), (3, 2, 1, 6)]
+
+
+def live_plan(tier, seed, J, si, n_nests, alph):
+    """Part 'live': the contexts of one nest structure.  Per context: assignment index mi and nest parameters mus; form of the
+    availability conditions av ('var' | 'none'); single: the histories with ONE earlier call (every primer of live_primers x
+    every update) - False | 'log' (the log versions of the unscaled models and of the scale-one models are requested after
+    the update) | 'full' (everything the context requests, except the sweep over the entry points); logs / scaled / entries:
+    what the histories of the primer 'all' request after the update (probabilities besides log probabilities; the scaled
+    versions mu != 1; every public entry point); every: every update family; chains of two updates: None | 'half' (every
+    second update followed by the next one) | 'next' (every update followed by the next one) | 'pairs' (every ordered pair).
+    quick: J = 2 every structure: the all-ones assignment (primer 'all' only), the assignment without ones (everything, chains
+    'half'), and one of the two with availability None; J = 3 one assignment per structure (alternating), log versions, single
+    primers for every fifth structure (rotating with the seed) and the single nest holding everything."""
+    asg = assignments(alph, n_nests, si, full=False)
+    seed = int(seed)
+    quick = tier == 'quick'
+    out = []
+    if J == 2:
+        for mi, mus in enumerate(asg):
+            if quick:
+                out.append(dict(mi=mi, mus=mus, av='var', single=('log' if mi == 1 else False), logs=(False, True), scaled=(mi == 1),
+                                entries=True, every=True, chains=('half' if mi == 1 else None)))
+            else:
+                out.append(dict(mi=mi, mus=mus, av='var', single='full', logs=(False, True), scaled=True, entries=True, every=True,
+                                chains=('pairs' if mi == 1 else 'next')))
+            if not quick or mi == (si + seed) % 2:
+                out.append(dict(mi=mi, mus=mus, av='none', single=(False if quick else 'log'), logs=(True,), scaled=not quick,
+                                entries=not quick, every=True, chains=(None if quick else 'next')))
+    elif quick:
+        mi = (si + seed) % 2
+        out.append(dict(mi=mi, mus=asg[mi], av='var', single=('log' if ((si + seed) % 5 == 0 or si == 1) else False), logs=(True,),
+                        scaled=False, entries=False, every=False, chains=None))
+    elif J == 3:
+        for mi, mus in enumerate(asg):
+            out.append(dict(mi=mi, mus=mus, av='var', single=('full' if mi == 1 else 'log'), logs=(False, True), scaled=(mi == 1),
+                            entries=(mi == si % 2), every=True, chains='next'))
+        out.append(dict(mi=si % 2, mus=asg[si % 2], av='none', single=False, logs=(True,), scaled=False, entries=False, every=True,
+                        chains=None))
+    else:
+        mi = (si + seed) % 2
+        out.append(dict(mi=mi, mus=asg[mi], av='var', single=('log' if (si + seed) % 4 == 0 else False), logs=(True,), scaled=False,
+                        entries=False, every=False, chains=None))
+    return out
+
+
+def run_live_context(ctx, plan, table, rec, seed=0):
+    """every history of one live context: the primer 'all' x every update (and the chains of two updates), then every single
+    primer x every update.  All the histories share one FormulaEval: a formula is evaluated once."""
+    fe = FormulaEval(table)
+    J = len(ctx['alts'])
+    ups = live_updates(J, ctx['forms']['av'] == 'var', every=plan['every'])
+    real = [u for u in ups if u[0] != 'none']
+    for u in ups:
+        run_live_history(ctx, ['all'], [u], fe, rec)
+    if plan['chains']:
+        for i, u1 in enumerate(real):
+            if plan['chains'] == 'half' and (i + int(seed)) % 2:
+                continue
+            for u2 in (real if plan['chains'] == 'pairs' else [real[(i + 1) % len(real)]]):
+                run_live_history(ctx, ['all'], [u1, u2], fe, rec, chain=True)
+    if plan['single']:
+        # the sweep over every public entry point AFTER the update belongs to the histories of the primer 'all'
+        ctx1 = dict(ctx, entries=False)
+        if plan['single'] == 'log':
+            ctx1 = dict(ctx1, logs=[True], scaled=False)
+        for p in live_primers(ctx['kind']):
+            for u in ups:
+                run_live_history(ctx1, p, [u], fe, rec)
+    rec.count('live_contexts')
+    return len(fe.memo)
 
 
 def na_entry_structures(tier, seed, J, n):
@@ -1356,6 +1890,76 @@ def run_task(task):
                                                    utag=AVTAG, nested_only=True)
         rec.sample(dict(part=part, alts=alts, first=structs[task['structs'][0]], availability_values=vals,
                         valued_patterns=len(vpats), example_pattern=vpats[-1]))
+    elif task['part'] == 'live':
+        structs = R.nested_structures(alts)
+        base = _table(alph, J, tier, small=True)
+        tnone = B.Table(alts, base.us, base.pats[:1])
+        nf = 0
+        for si in task['structs']:
+            alone, nests = structs[si]
+            for plan in live_plan(tier, task['seed'], J, si, len(nests), alph):
+                ctx = live_ctx(alph, 'nested', alts, alone, nests, plan['mus'], si + plan['mi'], task['seed'], av=plan['av'],
+                               logs=plan['logs'], scaled=plan['scaled'], entries=plan['entries'])
+                nf += run_live_context(ctx, plan, base if plan['av'] == 'var' else tnone, rec, task['seed'])
+        rec.sample(dict(part='live', alts=alts, first=structs[task['structs'][0]], primers=[['all']] + live_primers('nested'),
+                        updates=live_updates(J, True), shifts=live_shifts(task['seed']), formulas_evaluated=nf))
+    elif task['part'] == 'live_cnl':
+        structs = R.cnl_structures(alts, task['M'], alph['splits'][:task['ns']])
+        base = _table(alph, J, tier, small=True)
+        seed = int(task['seed'])
+        for si in task['structs']:
+            alone, nests = structs[si]
+            if not any(0.0 < a < 1.0 for n in nests for a in n.values()):
+                rec.count('cnl_structure_without_cross_membership_covered_by_nested_part')
+                continue
+            if tier == 'quick' and (si + seed) % 3:
+                rec.count('cnl_structure_left_to_the_other_seeds_and_the_thorough_tier')
+                continue
+            mus_list = B._cnl_mus(alph, task['M'], 'reduced')
+            mus = list(mus_list[si % len(mus_list)])
+            full = tier != 'quick' and J == 2
+            # quick: every third structure (rotating with the seed), log versions; the single primers for every second of them
+            plan = dict(every=(J == 2), chains=('next' if full else None),
+                        single=('full' if full else 'log' if (tier != 'quick' or (si // 3) % 2 == 0) else False))
+            ctx = live_ctx(alph, 'cnl', alts, alone, nests, mus, si, seed, av='var', logs=((False, True) if full else (True,)),
+                           scaled=full, entries=(full or si % 2 == 0))
+            run_live_context(ctx, plan, base, rec, seed)
+        rec.sample(dict(part='live_cnl', alts=alts, M=task['M'], first=structs[task['structs'][0]],
+                        primers=[['all']] + live_primers('cnl')))
+    elif task['part'] == 'live_gen':
+        # clause (e) on live argument objects: earlier calls of the generating function / of the terms / of the model, the
+        # dicts updated in place, then the generating function and the terms requested with the same objects
+        structs = R.nested_structures(alts)
+        base = _table(alph, J, tier, small=True)
+        seed = int(task['seed'])
+        shifts = live_shifts(seed)
+        quick = tier == 'quick'
+        for si in task['structs']:
+            alone, nests = structs[si]
+            asg = assignments(alph, len(nests), si, full=False)
+            if J >= 3 and quick:
+                asg = [asg[(si + seed) % len(asg)]]
+            ups = live_updates(J, True, every=(J == 2 or not quick))
+            for mi, mus in enumerate(asg):
+                k = si + mi + seed
+                todo = []
+                for pi, primer in enumerate(GEN_PRIMERS):
+                    for ui, u in enumerate(ups):
+                        if primer == 'all' or J == 2:
+                            keep = True
+                        else:
+                            # J >= 3, the single earlier calls: thorough every second update, quick every fourth (rotating)
+                            keep = (ui + k + pi) % (4 if quick else 2) == 0
+                        if keep:
+                            todo.append((primer, u))
+                for n, (primer, u) in enumerate(todo):
+                    kk = k + n
+                    entries = None if kk % 2 == 0 else GEN_ENTRIES[1 + (kk // 2) % (len(GEN_ENTRIES) - 1)]
+                    check_generating(alph, alts, alone, nests, mus, base, rec, 'obj' if kk % 4 < 2 else 'tuple', 'var', 'betavar',
+                                     (B.PFORMS + ['movedbeta'])[kk % 5] if entries else B.PFORMS[kk % 4], entries,
+                                     INIT_MODES[kk % 3], live=dict(primer=primer, updates=[u], shifts=shifts))
+        rec.sample(dict(part='live_gen', alts=alts, first=structs[task['structs'][0]], primers=GEN_PRIMERS,
+                        updates=live_updates(J, True), shifts=shifts))
     elif task['part'] == 'na_cnl':
         structs = R.cnl_structures(alts, task['M'], alph['splits'][:task['ns']])
         base = _table(alph, J, tier, small=True)
@@ -1395,7 +1999,14 @@ def replay(case):
         table = B.Table(case['alts'], [grp['u']], [grp['avail']])
         entries = tuple(case['entries']) if case.get('entries') else None
         check_generating(None, case['alts'], case['alone'], case['nests'], case['mus'], table, rec, case['syntax'],
-                         case['avform'], case['uform'], case['pform'], entries, case.get('init', 'zero'), utag=case.get('utilities'))
+                         case['avform'], case['uform'], case['pform'], entries, case.get('init', 'zero'), utag=case.get('utilities'),
+                         live=case.get('live'))
+        return rec.violations
+    if case['part'] == 'live':
+        grp = case['group']
+        ctx = case['ctx']
+        table = B.Table(ctx['alts'], [grp['u']], [grp['avail']])
+        run_live_history(ctx, case['primer'], case['updates'], FormulaEval(table), rec, chain=case.get('chain', False))
         return rec.violations
     if case['part'] == 'raise':
         grp = case['group']
